@@ -8,7 +8,7 @@ use crate::sut::KEY_LENS;
 use std::collections::BTreeSet;
 
 fn nt(l: &BTreeSet<String>) -> bool {
-    has(l, "restore") || has(l, "delete_in_closed")
+    has(l, "restore") || has(l, "delete_in_closed") || has(l, "quarantine")
 }
 
 pub fn profile() -> Profile {
@@ -16,7 +16,7 @@ pub fn profile() -> Profile {
         id: "C15",
         phase: "history",
         checks: Checks { counts: true, disk_used: true, ids: true, ..Default::default() },
-        gen: GenParams { nkeys: 4, ts_span: 5, metas: 3, max_ops: 50, w_write: 34, w_delete: 20, w_switch: 8, w_wait: 10, w_reopen: 6, w_lifecycle: 20, w_maint: 4, ..Default::default() },
+        gen: GenParams { nkeys: 4, ts_span: 5, metas: 3, max_ops: 50, w_write: 34, w_delete: 20, w_switch: 8, w_wait: 10, w_reopen: 6, w_lifecycle: 20, w_maint: 4, w_crash: 3, ..Default::default() },
         keylens: KEY_LENS,
         short_defer: true,
         nt,
@@ -30,7 +30,7 @@ pub fn run(ctx: &RunCtx) -> PropResult {
     PropResult {
         report,
         level: "exploration",
-        rule: "proptest histories with deletes into closed blobs, manual close/restore/create of the active blob, forced switches and restarts; after EVERY step records_count, records_count_detailed (ids and counts of closed blobs, count of the active one), records_count_in_active_blob, blobs_count, next_blob_id, corrupted_blobs_count compared with the model, blob files on disk checked against the ids the model handed out; at every wait-idle point disk_used compared with the directory listing. Non-trivial = the history contains a successful restore or a delete into a closed blob. distinct = FNV hash of the serialized case.".into(),
+        rule: "proptest histories with deletes into closed blobs, manual close/restore/create of the active blob, forced switches, restarts, and crash-restarts in which the harness damages blob files so that init quarantines them (cut inside a record header / body / the blob header, zeroed magic, flipped header byte); after EVERY step records_count, records_count_detailed (ids and counts of closed blobs, count of the active one), records_count_in_active_blob, blobs_count, next_blob_id, corrupted_blobs_count compared with the model, blob files on disk checked against the ids the model handed out; at every wait-idle point disk_used compared with the directory listing. Non-trivial = the history contains a successful restore, a delete into a closed blob or a quarantine. distinct = FNV hash of the serialized case.".into(),
         assumptions: common_assumptions(),
     }
 }
